@@ -191,7 +191,8 @@ class PipeEndpoint():
 
         try:
             return self._pipe.recv()
-        except (EOFError, BrokenPipeError):
+        except (EOFError, BrokenPipeError, OSError):
+            # OSError: the writer died part-way through a message
             raise queue.Empty
 
     def get_nowait(self):
